@@ -5,6 +5,7 @@ from ..index import AnalysisError, attr_chain, norm, own_nodes
 from ..query import calls_in, call_name, is_value_yield, lines, falsy_edges, mentions_all
 from ..flow import reaching_defs
 from ..condeval import check_cond
+from .common import borrowed
 from .common import (TLSCONN, TLSREC, nodes_with_call, consumes_of, getmsg_nodes, dead_edge_labels,
                      effective_tests, must_pass)
 from . import c19, c20, c13
@@ -28,6 +29,41 @@ EXPLANATION = (
 NOT_DECIDED = ("equality of the two endpoints' views (needs two running endpoints), exporter output "
                "equality, that ALPN/SNI values agree, PHA client chains vs key-size policy (known finding)")
 TECHNIQUE = "CFG must-pass-through with effective gates and presence-exempt edges; copy-completeness; sibling agreement"
+
+
+def rule_suite_version(ctx):
+    """the list the client checks the server's suite against is its own offer filtered for exactly the
+    negotiated version: filterForVersion(clientHello.cipher_suites, v, v) with v the version that
+    becomes self.version."""
+    R = "C03.SH-GATES"
+    fi = ctx.index.func(TLSCONN + "_clientGetServerHello")
+    g = ctx.an.cfg(fi)
+    gate = [t for t in g.nodes if t.kind == "test" and isinstance(t.expr, ast.Compare)
+            and norm(t.expr.left) == "serverHello.cipher_suite" and isinstance(t.expr.ops[0], ast.NotIn)]
+    if not gate:
+        raise AnalysisError("C03.SH-GATES: ServerHello cipher suite membership gate not found")
+    lst = t_name = norm(gate[0].expr.comparators[0])
+    defs = reaching_defs(g, gate[0], lst)
+    ver = [norm(n.ast.value) for n in g.nodes if n.kind == "stmt" and isinstance(n.ast, ast.Assign)
+           and any(attr_chain(t) == "self.version" for t in n.ast.targets)]
+    ok = bool(defs) and bool(ver)
+    why = ""
+    for d in defs:
+        v = d.ast.value if isinstance(d.ast, ast.Assign) else None
+        if not (isinstance(v, ast.Call) and call_name(v) == "filterForVersion"):
+            ok, why = False, "it is `%s`" % (norm(v)[:60] if v is not None else "?")
+            continue
+        args = {k: norm(a) for k, a in zip(("suites", "minVersion", "maxVersion"), v.args)}
+        args.update({k.arg: norm(k.value) for k in v.keywords})
+        if args.get("suites") != "clientHello.cipher_suites":
+            ok, why = False, "it filters `%s`, not the client's own offer" % args.get("suites")
+        elif not (args.get("minVersion") == args.get("maxVersion") and args.get("minVersion") in ver):
+            ok, why = False, ("it is filtered for versions %s..%s instead of exactly the negotiated version (%s)"
+                              % (args.get("minVersion"), args.get("maxVersion"), ", ".join(sorted(set(ver)))))
+    ctx.check(R, ok, fi.qname, "suite list = offered suites filtered for exactly the selected version",
+              "the list the server's suite is checked against must be the client's own offer filtered for the "
+              "selected version (a suite the client did not offer, or one not defined for the version, would "
+              "pass): " + why, fi.loc(defs[0].ast) if defs and defs[0].ast is not None else fi.loc())
 
 
 def rule_sh_gates(ctx):
@@ -65,15 +101,7 @@ def rule_sh_gates(ctx):
             cut = falsy_edges(g, presence)
         must_pass(ctx, R, fi, g, srcs, sinks, eff, "ServerHello gate: " + what,
                   "the client accepts a ServerHello without the check: " + what, cut=cut)
-    # the list the suite is checked against derives from the OFFER, filtered for the version
-    defs = [n for n in g.nodes if n.kind == "stmt" and isinstance(n.ast, ast.Assign) and
-            any(attr_chain(t) == "cipherSuites" for t in n.ast.targets)]
-    ok = bool(defs) and all("filterForVersion(clientHello.cipher_suites" in norm(d.ast.value) and
-                            "real_version" in norm(d.ast.value) for d in defs)
-    ctx.check(R, ok, fi.qname, "suite list = offered suites filtered for the selected version",
-              "the list the server's suite is checked against must be the client's own offer filtered for the "
-              "selected version (a suite the client did not offer, or one not defined for the version, would pass)",
-              fi.loc(defs[0].ast) if defs else fi.loc())
+    rule_suite_version(ctx)
     rv = [n for n in g.nodes if n.kind == "stmt" and isinstance(n.ast, ast.Assign) and
           any(attr_chain(t) == "real_version" for t in n.ast.targets)]
     ctx.check(R, len(rv) >= 1, fi.qname, "real_version from server_version / supported_versions",
@@ -334,4 +362,5 @@ RULES = [
     ("C03.SESSION", "quick", rule_session),
     ("C03.PROPAGATE", "quick", rule_propagate),
     ("C03.EXPORTER", "quick", rule_exporter),
+    ("C03.RSL", "quick", borrowed("c01", "rule_rsl", "C01.RSL", "C03.RSL")),
 ]
